@@ -9,6 +9,9 @@ from __future__ import annotations
 import hashlib
 import json
 import random
+import re
+
+_ADDR = re.compile(r"0x[0-9a-fA-F]{6,}")
 
 
 class HarnessError(BaseException):
@@ -50,7 +53,10 @@ def _canon(obj):
         if obj in (float("inf"), float("-inf")):
             return "inf" if obj > 0 else "-inf"
         return repr(obj)
-    if isinstance(obj, (str, int, bool)) or obj is None:
+    if isinstance(obj, str):
+        # no id()/address may reach the log: reprs of objects embedded in strings are canonicalised
+        return _ADDR.sub("0x", obj) if "0x" in obj else obj
+    if isinstance(obj, (int, bool)) or obj is None:
         return obj
     if isinstance(obj, bytes):
         return "b:" + obj.hex()
@@ -177,3 +183,70 @@ class RunResult(object):
             "nontrivial": bool(self.nontrivial),
             "obs": dict(self.obs),
         }
+
+
+def result_from_payload(events, summary):
+    """Rebuild a RunResult from what a forked run sent back."""
+    res = RunResult()
+    log = EventLog(cap=10 ** 9)
+    log.events = events
+    res.log = log
+    res.violations = [Violation(v["inv"], v["sig"], v["detail"]) for v in summary["violations"]]
+    res.probes, res.faults, res.faults_cfg, res.obs = summary["probes"], summary["faults"], summary["faults_cfg"], summary["obs"]
+    res.state_keys = summary["state_keys"]
+    res.schedule_key = summary["schedule_key"]
+    res.case_key = summary["case_key"]
+    res.nontrivial = summary["nontrivial"]
+    return res
+
+
+def run_forked(execute_fn, scenario):
+    """Execute one scenario in a forked child of this (already initialised) process.
+
+    Every run starts from the same pristine process state, so state that the code under test keeps at
+    process level (module-level caches, class attributes, registries) cannot leak from one simulated run
+    into the next: a violation found in a batch replays in a fresh interpreter.
+    """
+    import os
+    import pickle
+    import traceback
+
+    rfd, wfd = os.pipe()
+    pid = os.fork()
+    if pid == 0:
+        code = 0
+        try:
+            os.close(rfd)
+            try:
+                res = execute_fn(scenario)
+                payload = ("ok", res.log.events if res.log is not None else [], res.summary())
+            except BaseException as exc:  # noqa
+                payload = ("harness", "%s: %s\n%s" % (type(exc).__name__, exc, traceback.format_exc()[-3000:]), None)
+            data = pickle.dumps(payload)
+            os.write(wfd, len(data).to_bytes(8, "big"))
+            off = 0
+            while off < len(data):
+                off += os.write(wfd, data[off:off + 65536])
+        except BaseException:
+            code = 3
+        finally:
+            os._exit(code)
+    os.close(wfd)
+    chunks = []
+    with os.fdopen(rfd, "rb") as f:
+        head = f.read(8)
+        if len(head) == 8:
+            n = int.from_bytes(head, "big")
+            while n > 0:
+                b = f.read(n)
+                if not b:
+                    break
+                chunks.append(b)
+                n -= len(b)
+    os.waitpid(pid, 0)
+    if not chunks:
+        raise HarnessError("forked run died without a result")
+    status, a, b = pickle.loads(b"".join(chunks))
+    if status != "ok":
+        raise HarnessError("forked run failed: %s" % a)
+    return result_from_payload(a, b)
